@@ -995,12 +995,12 @@ def make_data_dict_vcf(vcf_filename, popinfo_filename, subsample=None, filter=Tr
                     if calc_coverage:
                         coverage_dict[pop] = ()
 
-                # Skip if DP=0 or DP=.
-                try:
-                    if sample.split(':')[covindex] == '0,0' or sample.split(':')[dpindex] == '0':
-                        continue
-                except: 
-                    pass
+                # Skip if DP=0 or AD=0,0 (whichever of the two fields the file has;
+                # the last column still carries the line ending)
+                fields = sample.strip().split(':')
+                if ((covindex is not None and fields[covindex] == '0,0') or
+                    (dpindex is not None and fields[dpindex] == '0')):
+                    continue
 
                 # Genotype in VCF format 0|1|1|0:...
                 gt = sample.split(':')[gtindex]
